@@ -93,12 +93,14 @@ impl Check for C04Check {
         let k = if tier == Tier::Thorough { 8 } else { 3 };
         let perms: Vec<u64> = (0..k).map(|_| st.consumer.next_u64() % 1_000_000_007).collect();
         let cfg = gen_search::sim_cfg(&mut st.schedule, 400_000);
+        // a sixth of the cases run every variant as the body of a dfs block
+        let dfs = st.consumer.chance(1, 6);
         Case {
             property: "C04".into(),
             oracle: if tree { "tree-instance-sets" } else { "fd-projections" }.into(),
             program,
             cfg,
-            extra: json!({"perm_seeds": perms}),
+            extra: json!({"perm_seeds": perms, "dfs": dfs}),
         }
     }
 
@@ -116,7 +118,7 @@ impl Check for C04Check {
 
     fn rule(&self) -> String {
         "case = terminating program (tree family: ==, !=, conde, fresh; FD family: CLP(FD) constraints, ==, != on FD \
-         variables, conde) x K seeded permutations of every conjunction and every clause list (3 quick, 8 thorough) x one \
+         variables, conde) x K seeded permutations of every conjunction and every clause list (3 quick, 8 thorough; one case in six runs all of them inside a dfs block) x one \
          schedule (iteration-order policy, yields) applied to all of them. Oracle: the answer multiset of every permutation \
          equals that of the original AND both equal the absolute reference, so a disagreement names the wrong ordering. Tree \
          family: answers compared as sets of ground instances over the sample universe of R2 (multiset of coverage sets; \
@@ -139,6 +141,8 @@ impl Check for C04Check {
             variants.push((format!("permutation {}", s), gen_tree::permute(p, &mut r, true)));
         }
         let changed = variants.iter().skip(1).any(|(_, v)| v != p);
+        let dfs = case.extra["dfs"].as_bool() == Some(true);
+        let variants: Vec<(String, Program)> = variants.into_iter().map(|(n, v)| (n, wrap_dfs_if(&v, dfs))).collect();
         if case.oracle == "tree-instance-sets" {
             // sample assignments
             let u = r2::universe(p);
